@@ -17,6 +17,19 @@
 //!   call / read stream, under a memory limit chosen (largest of a fixed ladder) so that the fault-free run
 //!   spills; k enumerated over the fault-free run's calls;
 //! * `DiskQuota` — `max_temp_directory_size` set to i/13 of the bytes the fault-free run spilled, i = 1..12.
+//! * `PartDrop` (module `partdrop.rs`, physical-plan level, added after the independently seeded defect
+//!   `/verif/seeded/C20-a` went unnoticed: every SQL case consumes all partitions / the coalesced stream to the
+//!   end, so no repartition receiver is ever gone when an input error fans out) — a `RepartitionExec`
+//!   (round-robin or hash, 2–8 outputs) over a gated scripted source; every output partition is executed and
+//!   polled separately, a generated subset of the partition streams is dropped after `before` source batches,
+//!   then the gate opens and the source fails `after` batches later; each scenario is repeated 6 times
+//!   (the victims depend on hash-map iteration order). Oracle: every surviving partition stream yields the
+//!   error, or ends Ok with at least the rows it gets in the fault-free variant of the same scenario (same
+//!   drop set); ending Ok with fewer rows is a violation.
+//!   `tools/mutrun /verif/seeded/C20-a/patch.diff -- ./check C20 quick` → VIOLATION after 5 evaluations
+//!   ("output partition 0 of RepartitionExec (round-robin, 2 outputs) ended successfully with 3 rows although
+//!   the input failed (fault-free: 9 rows); dropped consumers [1]"); unchanged tree: exit 0.
+//!   Not done: SQL shapes with per-partition limits above a repartition (LocalLimitExec) as a second route.
 //!
 //! **Oracle** (per fault point): the stream yields `Err` (possibly after some batches; the driver stops
 //! polling there, as `collect()` does) — or it ends `Ok` with exactly the fault-free result (same comparison
@@ -109,16 +122,21 @@ pub enum FaultKind {
     MemRefuse { mode: FaultMode, disk: bool },
     SpillIo { kind: SpillFaultKind, mode: FaultMode },
     DiskQuota,
+    /// physical-plan level: the partitions of a RepartitionExec over the scripted source are executed
+    /// separately, the streams in `drop_mask` are dropped after the first `before` source batches, then the
+    /// source yields `before + after` … and fails in place of batch `before + after`
+    PartDrop { hash: bool, n_out: u8, drop_mask: u8, before: u8, after: u8 },
 }
 
 impl FaultKind {
-    fn label(&self) -> String {
+    pub fn label(&self) -> String {
         match self {
             FaultKind::Source => "fault=source".into(),
             FaultKind::Udf(s) => format!("fault=udf-{s:?}"),
             FaultKind::MemRefuse { mode, disk } => format!("fault=mem-{mode:?}-{}", if *disk { "disk" } else { "nodisk" }),
             FaultKind::SpillIo { kind, mode } => format!("fault=spill-{kind:?}-{mode:?}"),
             FaultKind::DiskQuota => "fault=disk-quota".into(),
+            FaultKind::PartDrop { hash, .. } => format!("fault=partdrop-{}", if *hash { "hash" } else { "roundrobin" }),
         }
     }
     fn needs_spill(&self) -> bool {
@@ -302,6 +320,7 @@ fn fault_strategy() -> BoxedStrategy<FaultKind> {
         3 => (mode.clone(), any::<bool>()).prop_map(|(mode, disk)| FaultKind::MemRefuse { mode, disk }),
         3 => (pick(vec![SpillFaultKind::Create, SpillFaultKind::Write, SpillFaultKind::Write, SpillFaultKind::Read]), mode).prop_map(|(kind, mode)| FaultKind::SpillIo { kind, mode }),
         1 => Just(FaultKind::DiskQuota),
+        4 => (any::<bool>(), 2u8..=8, 1u8..255, 0u8..4, 0u8..3).prop_map(|(hash, n_out, drop_mask, before, after)| FaultKind::PartDrop { hash, n_out, drop_mask, before, after }),
     ]
     .boxed()
 }
@@ -373,6 +392,9 @@ impl Property for C20 {
         ]
     }
     fn run(&self, case: &Case) -> CaseResult {
+        if let FaultKind::PartDrop { .. } = case.fault {
+            return crate::partdrop::run(case);
+        }
         let q = &case.query;
         let cfg = &case.cfg;
         let site = if let FaultKind::Udf(s) = case.fault { Some(s) } else { None };
@@ -506,6 +528,7 @@ impl Property for C20 {
                 spread(n, 12).into_iter().map(Point::Spill).collect()
             }
             FaultKind::DiskQuota => (1..=12u64).map(|i| Point::Quota((base.spilled_bytes * i / 13).max(1))).collect(),
+            FaultKind::PartDrop { .. } => vec![],
         };
         if points.is_empty() {
             return done(CaseResult::discard("no fault point (the fault-free run never makes such a request)"), &mut labels);
@@ -606,5 +629,5 @@ impl Property for C20 {
 }
 
 pub const SIG_LEFT_EMISSION: &str = "nlj-oom-fallback:left-emission-multi-partition";
-static FAULT_POINTS: std::sync::atomic::AtomicU64 = std::sync::atomic::AtomicU64::new(0);
-static REACHED_POINTS: std::sync::atomic::AtomicU64 = std::sync::atomic::AtomicU64::new(0);
+pub static FAULT_POINTS: std::sync::atomic::AtomicU64 = std::sync::atomic::AtomicU64::new(0);
+pub static REACHED_POINTS: std::sync::atomic::AtomicU64 = std::sync::atomic::AtomicU64::new(0);
